@@ -27,6 +27,13 @@ assignment) for every path it created, after the create succeeded.  C17.5
 EndpointPresence.unregister_* delete only under *equality* of the recorded
 host with this host; trace.app.zk._unschedule deletes /scheduled only if this
 host's placement node exists.
+Added by the seeding rounds - C17.1 an existing node is never adopted in the
+NodeExists handler; C17.2 the node is updated only after the owner-session
+check; C17.4 the owner table is written by plain assignment and exactly the
+recorded paths of the request are deleted; C17.5 equality (not prefix) with
+this host, and /scheduled is deleted only while this host's placement node
+exists; thorough: writers of running / endpoint / identity nodes are the owner
+modules.
 Does NOT decide interleavings of two sessions with expiry (schedules).
 """
 
